@@ -52,7 +52,7 @@ def floors(tier):
             'faults_injected': 20000, 'histkeys:fault': 9, 'legacy_api_errors': 3000,
             'custom_context_soups': 500, 'parser_class_context_soups': 1000, 'parses_from_configured_state': 2000,
             'stop_condition_entry_points': 3000, 'truncated_documents_parsed_before_injection': 500,
-            'failed_parse_inside_verbatim_then_stray_brace': 40, 'histkeys:numbering': 2, 'hist:numbering:line_number_offset': 5000}
+            'failed_parse_inside_verbatim_then_stray_brace': 20, 'histkeys:numbering': 2, 'hist:numbering:line_number_offset': 5000}
 
 
 def setup(rec):
